@@ -195,3 +195,14 @@ _Atomic _Bool _Complex _Generic _Imaginary _Noreturn _Static_assert _Thread_loca
 # register alias names of the Hexagon plugin (rizin: HexRegAlias) made of capitals and digits; used as probe words only
 ALIAS_PROBES = ("SA0", "LC0", "SA1", "LC1", "USR", "PC", "UGP", "GP", "CS0", "CS1", "UPCYCLELO", "UPCYCLEHI", "FRAMELIMIT", "FRAMEKEY", "PKTCOUNTLO", "PKTCOUNTHI",
                 "UTIMERLO", "UTIMERHI", "M0", "M1", "LR", "SP", "FP")
+
+
+# plugin macros whose parameters are plugin objects (packet, instruction, operand slot, enum) handed through unconverted: the C type each
+# parameter starts with (rizin: librz/arch/isa/hexagon/hexagon_il.h).  A value type here would make the compiler pass the register VALUE
+# where the plugin expects the operand slot.
+PLUGIN_OBJECT_PARAMS = {
+    "get_corresponding_CS": ["HexPkt", "HexOp"],
+    "HEX_GET_INSN_RMODE": ["HexInsn"],
+    "HEX_SETROUND": ["HexInsn", "RzFloatRMode"],
+    "REGFIELD": ["HexRegFieldProperty", "HexRegField"],
+}
